@@ -231,6 +231,11 @@ def collect_fuzz_crashers(u, binary, shard, seed, tier, rundir, extra_env, cwd, 
     fail files of this shard (=> VIOLATION); returns a note when a crasher did not reproduce (=> inconclusive, exit 2)."""
     cdir = os.path.join(cwd, "testdata", "fuzz", u["fuzz_target"])
     note = None
+    faildir = os.path.join(rundir, "fail")
+    if os.path.isdir(cdir) and os.listdir(cdir) and os.path.isdir(faildir):
+        for f in os.listdir(faildir):   # what the workers wrote while minimising is superseded by the saved crashers
+            if f.endswith("-" + name + ".json") and not f.startswith("journal-"):
+                os.remove(os.path.join(faildir, f))
     for i, fn in enumerate(sorted(os.listdir(cdir)) if os.path.isdir(cdir) else []):
         text = open(os.path.join(cdir, fn), errors="surrogateescape").read()
         facet = (u.get("facets") or [u["name"]])[0]
@@ -244,7 +249,6 @@ def collect_fuzz_crashers(u, binary, shard, seed, tier, rundir, extra_env, cwd, 
         json.dump(doc, open(base + ".fuzz.json", "w"), indent=1)
         u2 = dict(u, name="%s-confirm%d" % (u["name"], i), _fuzz=False)
         r2 = run_shard(u2, binary, shard, seed, tier, rundir, extra_env, replay=base + ".fuzz.json")
-        faildir = os.path.join(rundir, "fail")
         mine = [f for f in (os.listdir(faildir) if os.path.isdir(faildir) else []) if f.endswith("-" + r2["name"] + ".json")]
         if r2["rc"] == 0:
             note = "native fuzz crasher %s.fuzz did not reproduce on replay (inconclusive)" % base
